@@ -22,6 +22,8 @@ package main
 //       take submitSinkTask's overflow branch; Stop is called while these invocations are in progress and they are released
 //       one by one in the order in which they began. Same events and monitor as R.
 //   C18 L # <event trace>   two overlapping Stop calls (documents F18c).
+//   C18 D ...               a second Stop (concurrent / re-entrant from the held sink / repeated) while the first is in
+//       progress, see c18e.go; sx:<j> = that call had not returned after 2 s.
 //   C18 I ...               Execute immediately followed by Stop (no yield in between), see c18c.go.
 //   C18 K ...               producers parked inside Emit on a full data channel while Stop runs, see c18d.go.
 //   C18 W ... / C18 B ...   calls in flight while sinks are registered and Stop is called / user code blocked or
@@ -736,7 +738,11 @@ func runC18Loser() (string, error) {
 	wg.Add(1)
 	go func() { defer wg.Done(); t.stop(s, 1) }()
 	time.Sleep(20 * time.Millisecond)
-	t.stop(s, 2)
+	// the second call is a no-op that returns at once; it is never awaited without a bound (sx:2 = still running after
+	// 2 s = second_stop_blocked; the call is then left behind on its own goroutine)
+	wg.Add(1)
+	second := func() { defer wg.Done(); t.stopWatched(s, 2, c18SecondStopBound) }
+	callWithin(c18SecondStopBound+500*time.Millisecond, second)
 	close(release)
 	if !callWithin(8*time.Second, wg.Wait) {
 		t.add("to")
